@@ -346,6 +346,8 @@ pub fn step(depth: u32) -> BoxedStrategy<Step> {
         2 => Just(Step::Collect),
         1 => Just(Step::Fail),
         1 => Just(Step::Noop),
+        2 => (prop_oneof![Just(0u128), gen::amount(0, 1u128 << 90)], prop_oneof![Just(0u128), gen::amount(0, 1u128 << 90)])
+            .prop_map(|(o, l)| Step::ForgeCallback { old_balance: Uint128::new(o), loan_amount: Uint128::new(l) }),
     ];
     if depth == 0 {
         leaf.boxed()
@@ -366,6 +368,12 @@ pub fn program(depth: u32) -> BoxedStrategy<Vec<Step>> {
         3 => prop::collection::vec(step(depth), 0..4),
         1 => Just(vec![Step::Repay(Repay::Exact)]),
         1 => Just(vec![Step::Repay(Repay::ExactMinus1)]),
+        // directed: forged AfterTrade callback, then a deposit inside the loan, then repayment
+        1 => (gen::amount(1, 1u128 << 80), any::<bool>()).prop_map(|(a, swallow)| vec![
+            Step::ForgeCallback { old_balance: Uint128::zero(), loan_amount: Uint128::zero() },
+            Step::Deposit { amount: Uint128::new(a), swallow },
+            Step::Repay(Repay::Exact),
+        ]),
         // directed: nested loan with inner >> outer, each repaid exactly / outer under-repaid
         2 => (gen::amount(1, 1u128 << 90), any::<bool>()).prop_map(|(inner, repay_outer)| {
             let mut p = vec![Step::NestedLoan { amount: Uint128::new(inner), program: vec![Step::Repay(Repay::Exact)] }];
@@ -439,7 +447,7 @@ fn has_reentrant(p: &[Step]) -> bool {
     p.iter().any(|s| {
         matches!(
             s,
-            Step::Deposit { .. } | Step::Withdraw { .. } | Step::Collect | Step::NestedLoan { .. }
+            Step::Deposit { .. } | Step::Withdraw { .. } | Step::Collect | Step::NestedLoan { .. } | Step::ForgeCallback { .. }
         )
     })
 }
@@ -594,6 +602,25 @@ pub fn run_history(c: &VCase, rec: &Rec, value_clauses: bool) -> Result<HistoryS
                             );
                         }
                         _ => {}
+                    }
+                }
+                if let Ok(resp) = &r {
+                    // a Callback(AfterTrade) sent by the borrower (not the vault itself) must be
+                    // rejected; the borrower's reply handler reports the vault's verdict
+                    let mut forged = 0u32;
+                    for ev in &resp.events {
+                        for a in &ev.attributes {
+                            if a.key == "forged_callback" {
+                                forged += 1;
+                                ensure!(
+                                    a.value == "rejected",
+                                    "step {step}: the vault accepted its internal Callback(AfterTrade) from the borrower contract during a loan of {amount} (program {program:?})"
+                                );
+                            }
+                        }
+                    }
+                    if forged > 0 {
+                        rec.class("forged_callback_rejected_in_successful_loan");
                     }
                 }
                 if r.is_ok() {
